@@ -74,6 +74,8 @@ def setup():
 def _num(k, p, as_float=False):
     if p == 0:
         return float(k) if as_float else k
+    if isinstance(p, str):  # "b40": units of 2**-40 (exactly representable, sums of a few dozen stay exact)
+        return k * 2.0 ** -int(p[1:])
     return k / 10 ** p
 
 
@@ -329,7 +331,18 @@ def gen(stratum, rng, tier):
     if stratum == "bin-huge-int":
         # byte-sized integers (capacity 1e9 .. 2**44): bins that are exactly full plus a few items of 1..8 units;
         # "fits" has to be decided on the exact integer load, whatever the magnitude
-        cap = rng.choice([10 ** 9, 2 ** 30, 2 ** 33, 8 * 2 ** 30, 10 ** 12, 2 ** 44, rng.randint(10 ** 9, 10 ** 13)])
+        cap = rng.choice([10 ** 9, 2 ** 30, 2 ** 33, 8 * 2 ** 30, 10 ** 12, 2 ** 44, rng.randint(10 ** 9, 10 ** 13),
+                          2 ** 54 + 7, 2 ** 54 + 2, 2 ** 60 + 1, 10 ** 18 + 3])
+        if rng.random() < 0.25:
+            # units of 2**-40 .. 2**-60: the same packing problem at a scale where 1e-9 is not "about zero"
+            capu = rng.randint(1, 40)
+            k = rng.randint(1, 3)
+            s = []
+            for _ in range(k):
+                s += _partition(capu, rng.randint(1, 3), rng)
+            s += [rng.randint(1, capu) for _ in range(rng.randint(0, 4))]
+            rng.shuffle(s)
+            return _bin_case(s[:12], rng.choice(["b40", "b40", "b50", "b60"]), capu, al)
         k = rng.randint(1, 3)
         s = []
         for _ in range(k):
@@ -340,7 +353,7 @@ def gen(stratum, rng, tier):
         s = s[:12]
         if rng.random() < 0.6:
             rng.shuffle(s)
-        return _bin_case(s, 0, cap, al, fl=rng.random() < 0.2)
+        return _bin_case(s, 0, cap, al, fl=rng.random() < 0.2 and cap < 2 ** 53)  # floats only where they are exact
     if stratum == "bin-dup-runs":
         # k bins filled exactly from a handful of distinct sizes: long runs of equal sizes in processing order
         # (OPT = k by construction); the decreasing heuristics must stay within 11/9 OPT + 6/9
@@ -499,8 +512,8 @@ def _judge_bin(case, algo, res, opt, obs):
     for i, b in enumerate(a):
         loads[b] += s[i]
     for b, ld in enumerate(loads):
-        if (ld > cap) if p == 0 else (ld * 10 ** 9 > cap * (10 ** 9 + 1)):  # integer data: exact
-            obs.violate("bin.overload", f"{tag}: bin {b} holds {Fraction(ld, 10 ** p)} solution={a!r}")
+        if (ld > cap) if (p == 0 or isinstance(p, str)) else (ld * 10 ** 9 > cap * (10 ** 9 + 1)):  # integer / dyadic data: exact
+            obs.violate("bin.overload", f"{tag}: bin {b} holds {ld} units (capacity {cap} units) solution={a!r}")
             return
     obs.event("bin.lb.checked")
     lb = -(-sum(s) // cap)
